@@ -60,12 +60,15 @@ type callScript struct {
 	// Dynamic (unary, serverStream): the client's messages are dynamicpb messages built from its own resolved copy of the
 	// file descriptor, as reflection clients, gateways and generic proxies use: same full names, other descriptor values
 	Dynamic bool
+	// OldSchema (with Dynamic): the client's copy of the schema predates the response fields: it receives them as
+	// unknown fields, which it keeps (and would forward) byte for byte
+	OldSchema bool
 }
 
 func (s callScript) String() string {
 	return fmt.Sprintf("%s pre=%v serverMsgs=%q mid=%v code=%d msg=%q plain=%v failAfter=%d clientMsgs=%q cancelAfter=%d deadline=%v outMD=%v inMD=%v viaStream=%v withCause=%v",
 		s.Shape, s.PreOps, s.ServerMsgs, s.MidOps, s.Code, s.Msg, s.PlainErr, s.FailAfter, s.ClientMsgs, s.CancelAfter, s.Deadline, s.OutMD, s.InMD, s.ViaStream, s.WithCause) +
-		fmt.Sprintf(" dynamicMessages=%v", s.Dynamic)
+		fmt.Sprintf(" dynamicMessages=%v oldSchema=%v", s.Dynamic, s.OldSchema)
 }
 
 // the client's own copy of the test API's file descriptor
@@ -77,8 +80,27 @@ var dynFile = func() protoreflect.FileDescriptor {
 	return fd
 }()
 
+// the same file as an older client knows it: the response messages have no fields yet
+var dynFileOld = func() protoreflect.FileDescriptor {
+	fdp := protodesc.ToFileDescriptorProto(testproto.File_internal_testproto_test_proto)
+	for _, m := range fdp.MessageType {
+		if m.GetName() == "UnaryResponse" || m.GetName() == "ServerStreamResponse" {
+			m.Field = nil
+		}
+	}
+	fd, err := protodesc.NewFile(fdp, protoregistry.GlobalFiles)
+	if err != nil {
+		panic(err)
+	}
+	return fd
+}()
+
 func dynMsg(name string) *dynamicpb.Message {
 	return dynamicpb.NewMessage(dynFile.Messages().ByName(protoreflect.Name(name)))
+}
+
+func dynMsgOld(name string) *dynamicpb.Message {
+	return dynamicpb.NewMessage(dynFileOld.Messages().ByName(protoreflect.Name(name)))
 }
 
 func dynSet(m *dynamicpb.Message, field string, v protoreflect.Value) *dynamicpb.Message {
@@ -363,9 +385,16 @@ func runClient(cc grpc.ClientConnInterface, srv *scriptedServer, sc callScript) 
 		}
 		if sc.Dynamic {
 			resp := dynMsg("UnaryResponse")
+			if sc.OldSchema {
+				resp = dynMsgOld("UnaryResponse")
+			}
 			err = cc.Invoke(ctx, "/sc.go.test.TestApi/Unary", dynSet(dynMsg("UnaryRequest"), "msg", protoreflect.ValueOfString(sc.ClientMsgs[0])), resp, grpc.Header(&header), grpc.Trailer(&trailer))
 			if err == nil {
-				tr.Received = append(tr.Received, dynGet(resp, "msg").String())
+				if sc.OldSchema {
+					tr.Received = append(tr.Received, fmt.Sprintf("unknown:%x", []byte(resp.GetUnknown())))
+				} else {
+					tr.Received = append(tr.Received, dynGet(resp, "msg").String())
+				}
 			}
 			break
 		}
@@ -388,8 +417,15 @@ func runClient(cc grpc.ClientConnInterface, srv *scriptedServer, sc callScript) 
 						cancel()
 					}
 					m := dynMsg("ServerStreamResponse")
+					if sc.OldSchema {
+						m = dynMsgOld("ServerStreamResponse")
+					}
 					if err = cs.RecvMsg(m); err == nil {
-						tr.Received = append(tr.Received, fmt.Sprint(dynGet(m, "counter").Int()))
+						if sc.OldSchema {
+							tr.Received = append(tr.Received, fmt.Sprintf("unknown:%x", []byte(m.GetUnknown())))
+						} else {
+							tr.Received = append(tr.Received, fmt.Sprint(dynGet(m, "counter").Int()))
+						}
 					}
 				}
 				finishStream(cs)
@@ -536,8 +572,10 @@ func genScript(t *rapid.T) callScript {
 		sc.Deadline = rapid.IntRange(0, 9).Draw(t, "deadline") == 0
 		sc.ViaStream = rapid.IntRange(0, 2).Draw(t, "viaStream") == 0
 		sc.Dynamic = !sc.ViaStream && rapid.IntRange(0, 3).Draw(t, "dynamic") == 0
+		sc.OldSchema = sc.Dynamic && rapid.Bool().Draw(t, "oldSchema")
 	case "serverStream":
 		sc.Dynamic = rapid.IntRange(0, 3).Draw(t, "dynamic") == 0
+		sc.OldSchema = sc.Dynamic && rapid.Bool().Draw(t, "oldSchema")
 		n := rapid.IntRange(0, 5).Draw(t, "nserver")
 		for i := 0; i < n; i++ {
 			sc.ServerMsgs = append(sc.ServerMsgs, fmt.Sprint(i+1))
